@@ -90,7 +90,7 @@ def _gen_shards(tier):
     else:
         cfgs += [{"slots": 3, "body": 2, "blocks": 2, "first": f, "uod": True} for f in ("mark", "block", "uod")]
         cfgs += [{"slots": 2, "body": 2, "blocks": 2, "first": f, "watch": True, "in1": [a, 99]} for f in ("block", "watch") for a in (0, 4)]
-        cfgs += [{"slots": 2, "body": 2, "blocks": 2, "first": "block", "uod": True, "events": [ev]} for ev in EVENTS]
+        cfgs += [{"slots": 2, "body": 2, "blocks": 1, "first": "block", "uod": True, "events": [ev]} for ev in EVENTS]
     return [dict(c, pre=[p0, p1]) for c in cfgs for p0 in range(7) for p1 in range(7)]
 
 
@@ -140,7 +140,7 @@ _GENERATED = Obligation(
              "openpectus.lang.exec.tracking:Tracking.mark_started", "openpectus.lang.exec.tracking:Tracking.mark_completed"],
     symbolic="the kind of every item of the method (selectors over Mark / Wait / UOD command / Block / End block / End blocks / Watch), UOD command duration; in the event shards the kind's tick and the targeted run-log item",
     bounds={"quick": "first item a Block: 2 top-level items, bodies of 2 items, at most 2 blocks, one UOD command; first item a Watch (condition true from tick 2): 2 top-level items, one block",
-            "thorough": "3 top-level items; a Watch with the condition true from tick 0 / 4; one user event (Stop, Restart, Pause, Hold, cancel, force) at a solver-chosen tick on the block-first methods"},
+            "thorough": "3 top-level items; a Watch with the condition true from tick 0 / 4; one user event (Stop, Restart, Pause, Hold, cancel, force) at a solver-chosen tick on the block-first methods with one block"},
     assumptions=["the run log is taken after every tick", "tick interval fixed; fake hardware; log statements removed at import"])
 
 OBLIGATIONS = [_GENERATED,
